@@ -203,6 +203,27 @@ def Table.ltErase [DecidableEq κ] (c : Cfg κ) (t : Table κ ν) (k : κ) : Tab
   | some (b, s) => (t.delFrom c b s, 1)
   | none => (t, 0)
 
+/-- `locked_table::count(key)` -/
+def Table.ltCount [DecidableEq κ] (c : Cfg κ) (t : Table κ ν) (k : κ) : Nat :=
+  if t.ltFind c k = t.cur.endPos then 0 else 1
+
+/-- `locked_table::at(key)`: the mapped value, or `std::out_of_range` -/
+def Table.ltAt [DecidableEq κ] (c : Cfg κ) (t : Table κ ν) (k : κ) : Res ν :=
+  let p := t.ltFind c k
+  if p = t.cur.endPos then .err .outOfRange
+  else match t.cur.get c.S p.1 p.2 with
+    | some sl => .ok sl.val
+    | none => .err .outOfRange
+
+/-- `locked_table::equal_range(key)`: `[find(key), next)`, or `(end, end)` -/
+def Table.ltEqualRange [DecidableEq κ] (c : Cfg κ) (t : Table κ ν) (k : κ) : Pos × Pos :=
+  let p := t.ltFind c k
+  if p = t.cur.endPos then (p, p) else (p, t.cur.itNext c.S p)
+
+/-- `locked_table::operator[](key)`: `insert(key, mapped_type())` and a reference to the mapped value -/
+def Table.ltIndex [DecidableEq κ] (c : Cfg κ) (t : Table κ ν) (k : κ) (dflt : ν) : Table κ ν × Res (Pos × Bool) :=
+  t.ltInsert c k dflt
+
 /-! ### stream serialization (`operator<<`, `operator>>`) — logical content of the stream -/
 
 structure Wire (κ ν : Type) where
